@@ -224,7 +224,46 @@ def extra_templates():
                     "ref_text": "k :: ?a\nstart :: fn do\n    print(2)\nend\n", "dom": {"a": (0, 1)}, "expect": "accept"})
     out.append({"name": "entry_point_own_start_and_imported_module_with_start", "role": "entry-point-is-the-main-file's-start(own)", "text": "use a\nstart :: fn do\n    print(?a)\nend\n", "files": {"a.sy": "start :: fn do\n    print(7)\nend\n"},
                 "ref_text": "start :: fn do\n    print(?a)\nend\n", "dom": {"a": (0, 3)}, "expect": "accept"})
+    # (5) one file reached through a /-rooted path and through a relative path is ONE module (one copy of its state)
+    cnt = "count := 0\nbump :: fn do\n    count += 1\nend\n"
+    ref = cnt + "peek :: fn -> int do\n    ret count * 10\nend\nstart :: fn do\n    bump()\n    bump()\n    print(peek() + ?a)\n    print(count)\nend\n"
+    for nm, mi, files in (("main_rooted_other_relative", "use /counter\nuse reader\n", {"reader.sy": "use counter\npeek :: fn -> int do\n    ret counter.count * 10\nend\n"}),
+                          ("main_relative_other_rooted", "use counter\nuse reader\n", {"reader.sy": "use /counter\npeek :: fn -> int do\n    ret counter.count * 10\nend\n"}),
+                          ("main_relative_subfolder_rooted", "use counter\nuse sub/reader\n", {"sub/reader.sy": "use /counter\npeek :: fn -> int do\n    ret counter.count * 10\nend\n"}),
+                          ("main_rooted_subfolder_rooted", "use /counter\nuse /sub/reader\n", {"sub/reader.sy": "use /counter\npeek :: fn -> int do\n    ret counter.count * 10\nend\n"})):
+        out.append({"name": "one_file_two_spellings_" + nm, "role": "one-module-per-file(%s)" % nm, "text": mi + "start :: fn do\n    counter.bump()\n    counter.bump()\n    print(reader.peek() + ?a)\n    print(counter.count)\nend\n",
+                    "files": dict(files, **{"counter.sy": cnt}), "ref_text": ref, "dom": {"a": (0, 3)}, "expect": "accept"})
     return out
+
+
+# the emitted program must not depend on how the path of the main file is spelled on the command line
+SPELLING_FILES = {"proj/main.sy": "use /counter\nuse reader\nuse sub/deep\nfrom /sub/deep use (K)\nstart :: fn do\n    counter.bump()\n    print(reader.peek() + K)\n    print(deep.peek2())\n    print(counter.count)\nend\n",
+                  "proj/counter.sy": "count := 0\nbump :: fn do\n    count += 1\nend\n", "proj/reader.sy": "use counter\npeek :: fn -> int do\n    ret counter.count * 10\nend\n",
+                  "proj/sub/deep.sy": "use /counter\nK :: 3\npeek2 :: fn -> int do\n    ret counter.count * 100\nend\n"}
+SPELLINGS = [("proj", "main.sy"), ("proj", "./main.sy"), ("proj", "ABS"), (".", "proj/main.sy"), (".", "./proj/main.sy"), ("proj/sub", "../main.sy"), (".", "proj/sub/../main.sy"), (".", "proj//main.sy")]
+
+
+def main_spelling(sylt, fnd):
+    import os, subprocess, tempfile, shutil
+    d = tempfile.mkdtemp(prefix="c12sp_", dir=common.SCRATCH); outs = []
+    try:
+        for rel, text in SPELLING_FILES.items():
+            os.makedirs(os.path.dirname(os.path.join(d, rel)), exist_ok=True); open(os.path.join(d, rel), "w").write(text)
+        for cwd, sp in SPELLINGS:
+            arg = os.path.join(d, "proj/main.sy") if sp == "ABS" else sp
+            o = os.path.join(d, "out.lua")
+            if os.path.exists(o): os.remove(o)
+            r = subprocess.run([sylt, "-o", o, arg], cwd=os.path.join(d, cwd), capture_output=True, text=True, timeout=60)
+            outs.append((cwd, sp, r.returncode, open(o).read() if os.path.exists(o) else None, (r.stdout + r.stderr)[-300:].replace(d, "<dir>")))
+    finally: shutil.rmtree(d, ignore_errors=True)
+    base = outs[2]        # the absolute spelling is the reference
+    n = 0
+    for cwd, sp, rc, lua, msg in outs:
+        if (rc, lua) != (base[2], base[3]):
+            n += 1
+            fnd.report("main-path-spelling:%s@%s" % (sp, cwd), "the same project compiled as `sylt %s` from %s/ %s, but as `sylt <absolute path>/proj/main.sy` it %s" % (sp, cwd, ("is rejected: " + msg) if rc else "gives a different program", "is rejected" if base[2] else "compiles"),
+                       dict(SPELLING_FILES), cmd="cd %s && sylt -o out.lua %s" % (cwd, sp))
+    return len(outs), n
 
 
 ORDER_PAIRS = [
@@ -273,7 +312,8 @@ def run(tier):
             confirmed += 1
             fnd.report("import-order-changes-acceptance:" + name, "%s: with `%s` before `%s` the program is %s, in the other order it is %s (%s)" % (name, l1, l2, "accepted" if st[0][0] else "rejected", "accepted" if st[1][0] else "rejected", (st[0][1] if not st[0][0] else st[1][1])),
                        dict(files, **{"main.sy": l1 + "\n" + l2 + "\n" + rest, "main_swapped.sy": l2 + "\n" + l1 + "\n" + rest}), cmd="sylt -o a.lua main.sy; sylt -o b.lua main_swapped.sy")
-    cov = {"programs": agg["programs"], "disagreements_checked": confirmed, "samples": samples,
+    nsp, bad = main_spelling(art["sylt"], fnd); confirmed += bad
+    cov = {"programs": agg["programs"], "disagreements_checked": confirmed, "samples": samples, "main_path_spellings_compared": nsp,
            "status_counts": {k: agg.get(k, 0) for k in ("ok", "diff", "rejected", "load_error", "undecided", "stuck", "engine_error", "template_error")},
            "paths_lua": agg["paths_lua"], "cut_paths": agg["cut_paths"], "solver": {k: agg[k] for k in ("queries", "sat", "unsat", "unknown", "solver_s")},
            "layouts": sorted(LAYOUTS), "import_styles": STYLES, "known_findings_seen": sorted(fnd.seen_known)}
